@@ -907,6 +907,8 @@ class xRFM:
         # determine n_classes and convert automatically
         if is_class:
             if y.is_floating_point():
+                y = y.float()
+                y_val = y_val.float()
                 if len(y.shape) == 1:
                     y = y[:, None]
                 if len(y_val.shape) == 1:
